@@ -6,7 +6,7 @@ from ..core import HEADER, CASE_TYPE, CHECK, MODEL_VIEW, SHARD, CASE_TIMEOUT, ob
 
 ID = "C02"
 THEOREMS = ["C02_phase_agreement", "C02_label_pass_is_run", "C02_label_binding", "C02_size_agree",
-            "C02_opcode_size_agree", "C02_fail_not_shift", "C02_phase_check"]
+            "C02_opcode_size_agree", "C02_fail_not_shift", "C02_phase_check", "C02_label_final_value"]
 RULE = ("generated programs (all statement kinds, nested blocks/scopes/macros/loops/conditionals, *= and @= moves, "
         "LoROM/HiROM/low2) + width-inference stress programs (constant shadowed by a later label of the same name, "
         "forward/backward symbol operands at every width boundary) + bank-crossing layouts; the per-node addresses of "
